@@ -30,11 +30,14 @@ def check(k, seed):
     if k % 4:
         # a rotating subset per scene keeps the quick tier quick; the raw-data panel (which draws every hit type) is always included
         combos = [('raw_data', False), ('raw_data', True)] + [c for c in combos[(k % 4)::3] if c[0] != 'raw_data']
-    for upto, show_ceilos in combos:
+    # file stems as users write them: plain, with dots (dates, times, versions), with a trailing dot-less extension-like tail
+    stems = ['plot', 'LSZH_2024.03.15_12.50', 'diag_v2.1', 'run.A', 'plot']
+    for ci, (upto, show_ceilos) in enumerate(combos):
         rc0 = dict(matplotlib.rcParams)
         fmts = ['png'] if k % 2 else ['png', 'pdf']
+        base = stems[(k + ci) % len(stems)]
         with tempfile.TemporaryDirectory() as td:
-            stem = os.path.join(td, 'plot')
+            stem = os.path.join(td, base)
             try:
                 with warnings.catch_warnings():
                     warnings.simplefilter('ignore')
@@ -45,8 +48,8 @@ def check(k, seed):
                 plt.close('all')
                 continue
             files = sorted(os.listdir(td))
-            if files != sorted(f'plot.{f}' for f in fmts):
-                fails.append(f'files written {files} != requested {fmts}')
+            if files != sorted(f'{base}.{f}' for f in fmts):
+                fails.append(f"files written {files} != requested {sorted(f'{base}.{f}' for f in fmts)} (save_stem='{base}')")
         if plt.get_fignums():
             fails.append(f"figure left open after diagnostic(upto='{upto}', show=False)")
             plt.close('all')
